@@ -19,6 +19,7 @@ func init() {
 	vrt.Register("C20_truncate", Truncate)
 	vrt.Register("C20_truncate_defaults", TruncateDefaults)
 	vrt.Register("C20_truncate_template", TruncateTemplate)
+	vrt.Register("C20_truncate_runes", TruncateRunes)
 	vrt.Register("C20_html_escape", HTMLEscape)
 	vrt.Register("C20_js_escape", JSEscape)
 	vrt.Register("C20_raw", Raw)
@@ -227,4 +228,24 @@ func Raw() {
 	vrt.Assert(got == "["+s+"]", "raw(s) reaches the output byte-identical")
 	vrt.Assert(string(encoders.Raw(s)) == s, "Raw converts without changing a byte")
 	vrt.Cover("done")
+}
+
+// longer texts built from rune classes (enumerated): ASCII, 2-, 3- and 4-byte
+// runes, combining marks, an invalid byte, a truncated sequence; every size
+var runeChunks = []string{"x", "\u0438", "\u0306", "\u4e16", "\U0001F600", "\xff", "\xe4\xb8", "e\u0301"}
+
+func TruncateRunes() {
+	k := 4 + vrt.Tier()
+	s := ""
+	n := vrt.IntRange(0, k)
+	for i := 0; i < n; i++ {
+		s += runeChunks[vrt.Choice(len(runeChunks))]
+	}
+	size := vrt.IntRange(-1, 6)
+	trails := []string{"", "!", "...", "\u2026"}
+	trail := trails[vrt.Choice(len(trails))]
+	vrt.Note("s", s)
+	got := text.Truncate(s, hctx.Map{"size": size, "trail": trail})
+	vrt.Note("got", got)
+	truncateLaws(s, size, trail, got)
 }
